@@ -46,6 +46,7 @@ type FuncContract struct {
 	Props    []string
 	Requires []Clause
 	Defines  []Clause // definitional axioms about spec functions, assumed only when verifying this function's body
+	InvAssumed []Clause // object invariants of the receiver: assumed at entry of the body, not checked at call sites
 	Ensures  []Clause
 	TrustedEnsures []Clause // assumed at call sites, NOT checked against the body (listed as assumptions)
 	Assigns  []Clause // each a location expression
@@ -418,6 +419,15 @@ func (cs *Contracts) LoadContractFile(file, pkgPath string) error {
 				return err
 			}
 			cur.Defines = append(cur.Defines, c)
+		case "invariant-assumed":
+			if cur == nil {
+				return fmt.Errorf("%s:%d: invariant-assumed outside func", file, rl.line)
+			}
+			c, err := mk(rest)
+			if err != nil {
+				return err
+			}
+			cur.InvAssumed = append(cur.InvAssumed, c)
 		case "let":
 			if cur == nil {
 				return fmt.Errorf("%s:%d: let outside func", file, rl.line)
